@@ -1138,20 +1138,47 @@ Definition tracked_tokens (c : case) : list Z :=
 
 Definition mon_init (c : case) : mon := mkMon (c_init c) [] [] (c_init c) [] (m_vals (st_mem (c_init c))).
 
+(* every path that stores oracle params validates them (UpdateParams, and since the repair the token registration), so
+   the params a case is recorded with - the ones the chain really had - must satisfy Params.Validate's feeder rules;
+   step 0 = they do not *)
 Definition monitor_c12 (c : case) : option nat :=
   let p := c_params c in
   let h_first := match c_blocks c with b :: _ => b_height b | [] => 0 end in
   let trusted := fun fid base =>
     (h_first <=? base) || match zget (m_workers (st_mem (c_init c))) fid with None => true | Some _ => false end in
+  match
   mon_blocks (fun m now after t o =>
                 c12_tx_ok p (mn_vals m) trusted (if o_admitted o && o_ok o then mn_log m ++ subs_of_tx t else mn_log m) (mn_st m) after t o)
-             (c12_end_ok p (tracked_tokens c)) (mon_init c) (c_blocks c) 0.
+             (c12_end_ok p (tracked_tokens c)) (mon_init c) (c_blocks c) 0
+  with
+  | Some j => Some j          (* a concrete failing step comes first *)
+  | None => if params_valid p then None else Some 0%nat
+  end.
+
+(* C13 after EndBlock: nonce rows are what lets a fee-less tx in, so
+   - every row (v, f) belongs to a member v of the validator set as the property defines it (after this block's update)
+     and to a feeder f whose round is open ("nobody else gets any");
+   - every round that this EndBlock opened (base block = this height, open) has a zero row for every member. *)
+Definition c13_end_ok (vals' : list (Z * Z)) (h : Z) (updates : list (Z * Z)) (before after : state) : bool :=
+  let rounds := m_rounds (st_mem after) in
+  let nonces := s_nonces (st_store after) in
+  forallb (fun vr =>
+             (match zget vals' (fst vr) with Some _ => true | None => false end) &&
+             forallb (fun fv => match zget rounds (fst fv) with Some r => r_status r =? 1 | None => false end) (snd vr))
+          nonces &&
+  forallb (fun fr =>
+             if (r_status (snd fr) =? 1) && (r_base (snd fr) =? h) then
+               forallb (fun vp => match zget nonces (fst vp) with
+                                  | Some row => match row_value row (fst fr) with Some x => x =? 0 | None => false end
+                                  | None => false
+                                  end) vals'
+             else true) rounds.
 
 Definition monitor_c13 (c : case) : option nat :=
   let p := c_params c in
   mon_blocks (fun m now after t o => c13_tx_ok p (mn_vals m) now (mn_log m) (mn_adm m) (mn_st m) after t o &&
                                      c13_check_ok p (mn_vals m) (mn_blk m) (mn_chk m) t o)
-             (fun _ _ _ _ _ => true) (mon_init c) (c_blocks c) 0.
+             c13_end_ok (mon_init c) (c_blocks c) 0.
 
 (* ================= kernel cases: the pure functions BigIntList.Median and ExceedsThreshold =================
    The oracle suite reaches Median only with equal per-validator values (single deterministic source), so the two
